@@ -1,7 +1,7 @@
 """C18 — settings are validated; no accepted configuration can panic."""
 import itertools, random
 import vlib
-from props import netprops
+from props import netprops, httpplan
 
 LEVEL = "proof"
 RULE = ("exhaustive matrix: (read, write, connect) in {None, 0, 1 ns, 1 ms, u64::MAX s}^3 x retries in {0, 1, 2, usize::MAX-1, "
@@ -10,7 +10,8 @@ RULE = ("exhaustive matrix: (read, write, connect) in {None, 0, 1 ns, 1 ms, u64:
         "used to open a real UDP and a real TCP socket (apply_timeout's unwraps and connect_timeout are live) and, with the extreme "
         "retry counts, for one scripted query per modelled protocol family; the extreme durations (u64::MAX s, 1 ns, None, mixed) "
         "on the largest answered exchanges of every family; extra request settings: all combinations of given / omitted fields through the "
-        "setters, the four protocol conversions and into_extra. Oracle: zero anywhere => InvalidInput on every path; otherwise "
+        "setters, the four protocol conversions and into_extra; the HTTP client inside the model (`http-plan`, generator `httpdur`) with "
+        "17 duration triples of every magnitude against a loopback listener that answers. Oracle: zero anywhere => InvalidInput on every path; otherwise "
         "accepted unchanged and usable. Non-trivial = every case (all are distinct configurations).")
 ASSUMPTIONS = ["what clap's and serde's derive macros generate is modelled (field-wise construction), not verified",
                "std: set_read_timeout(Some(0)) is Err, connect_timeout(0) is Err, huge durations are clamped (exercised on real sockets)"]
@@ -28,7 +29,11 @@ def hexs(s):
 
 def run(rep, tier, seed, replay=None):
     if replay is not None:
-        vlib.correspond(rep, replay, oracle=netprops.crash_oracle, tag="c18")
+        for o in httpplan.run(rep, [l for l in replay if httpplan.is_http(l)], "c18hp"):
+            httpplan.c18_oracle(rep, o)
+        replay = [l for l in replay if not httpplan.is_http(l)]
+        if replay:
+            vlib.correspond(rep, replay, oracle=netprops.crash_oracle, tag="c18")
         return
     rnd = random.Random(seed)
     cases, exp = [], {}
@@ -192,7 +197,7 @@ def run(rep, tier, seed, replay=None):
             out.append(("retries-extreme", f"result with an extreme retry count differs: {vlib.result_of(impl)[:120]}"))
         return out
 
-    vlib.correspond(rep, netprops.corpus("C18") + cases, oracle=oracle, tag="c18")
+    vlib.correspond(rep, [l for l in netprops.corpus("C18") if not httpplan.is_http(l)] + cases, oracle=oracle, tag="c18")
     himpl, hpanics = vlib.run_impl(http_lines, tag="c18h") if http_lines else ({}, {})
     for l in http_lines:
         cid = l.split(" ", 1)[0]
@@ -204,5 +209,10 @@ def run(rep, tier, seed, replay=None):
             rep.oracle_failures += [(sg, d, l[:2000], out[:300]) for sg, d in bad]
         elif vlib.result_of(out) != http_want[cid]:
             rep.oracle_failures.append(("extreme-durations:http-result", f"result differs with extreme durations: {out[:160]}", l[:2000], out[:300]))
+    # the HTTP client inside the model: durations of every magnitude (1 ns write, u64::MAX s + 999999999 ns, none, mixed, no settings)
+    # against a listener that answers, eco / get_json / get, both families: model = implementation, result = the document served
+    for o in httpplan.run(rep, httpplan.gen("httpdur", seed + 18, 51 if tier == "quick" else 255) + [l for l in netprops.corpus("C18") if httpplan.is_http(l)],
+                          "c18hp", count="extreme-durations:http-plan"):
+        httpplan.c18_oracle(rep, o)
     rep.extra_cov["exhaustive"] = True
     rep.extra_cov["explanation"] = "the new/serde matrices are enumerated completely in both tiers; the flag matrix completely in the thorough tier"
